@@ -395,6 +395,18 @@ impl<'a> World<'a> {
         if res == "ok" {
             claims.extend(Self::root_claims(&post));
         }
+        // the header that the block's own contents lead to (computed by the workload) commits to those contents:
+        // different transaction sets (full hashes, signatures included) / actions on one parent must give different headers
+        if let Some(hh) = extra.get("honestHeader").and_then(|h| h.get("hash")).and_then(|h| h.as_str()) {
+            let mut full: Vec<String> = blk.transactions.iter().map(|t| hex::encode(tmelcrypt::hash_single(&stdcode::serialize(t).unwrap()).0)).collect();
+            full.sort();
+            let dg = hex::encode(&tmelcrypt::hash_single(serde_json::to_vec(&json!(full)).unwrap()).0[..12]);
+            let dga = hex::encode(&tmelcrypt::hash_single(serde_json::to_vec(&json!([full, action_j(&blk.proposer_action)])).unwrap()).0[..12]);
+            // (the header commits to the effects of the proposer action, not to the action: a delta too small to move the
+            // multiplier leaves the same header, so only the transactions are compared under one header)
+            claims.push(json!([format!("block-txs-of:{}:{}", sid, hh), dg, "C07", "two blocks on one parent that differ in a transaction (signatures included) have the same header"]));
+            claims.push(json!([format!("header-of-block:{}:{}", sid, dga), hh, "C07", "the same block contents on the same parent give different headers"]));
+        }
         self.emit(json!({"ev": "block", "claims": claims, "preid": sid, "postid": nid, "pre": pre, "basis": basis_obs, "txs": txj, "lastHeader": lh,
                          "header": lj::header_j(&blk.header), "action": action_j(&blk.proposer_action), "rewardid": rewardid,
                          "bytesOf": bytes_of, "hdrs": hdrs, "threads": threads, "res": res, "post": post, "x": extra}));
